@@ -1733,6 +1733,222 @@ fn execute_consumer(case: &consumer_stage::ConsumerCase, report: &mut Report) {
     }
 }
 
+// ------------------------------------------------------------------------------------------------
+// Account stage: the other user of the reconnecting machinery. `ExecutionManager::init` wraps a client's
+// account stream (snapshot + updates) in init_reconnecting_stream -> with_reconnect_backoff ->
+// with_reconnection_events and merges it with the request responses. A scripted mock-style client
+// (EXCHANGE = Mock, serving Kraken - as the library's own MockExecution does) drops its connection and
+// fails re-initialisations as scripted; every connection's items must arrive once and in order, followed by
+// exactly one notice that names THE EXCHANGE WHOSE LINK DROPPED.
+
+mod account_stage {
+    use super::consumer_stage::Attempt;
+    use super::Policy;
+    use barter::execution::{AccountStreamEvent, manager::ExecutionManager, request::ExecutionRequest};
+    use barter_data::streams::reconnect::{Event, stream::ReconnectionBackoffPolicy};
+    use barter_execution::{
+        AccountEventKind, UnindexedAccountEvent, UnindexedAccountSnapshot,
+        balance::{AssetBalance, Balance},
+        client::ExecutionClient,
+        error::{ConnectivityError, UnindexedClientError, UnindexedOrderError},
+        indexer::AccountEventIndexer,
+        map::generate_execution_instrument_map,
+        order::{Order, request::{OrderRequestCancel, OrderRequestOpen, UnindexedOrderResponseCancel}, state::Open},
+        trade::Trade,
+    };
+    use barter_instrument::{asset::{QuoteAsset, name::AssetNameExchange}, exchange::ExchangeId, index::IndexedInstruments, instrument::name::InstrumentNameExchange};
+    use barter_integration::{channel::mpsc_unbounded, snapshot::Snapshot};
+    use chrono::{DateTime, Utc};
+    use futures::{StreamExt, stream::BoxStream};
+    use rust_decimal::Decimal;
+    use serde::{Deserialize, Serialize};
+    use std::{collections::VecDeque, sync::{Arc, Mutex}, time::Duration};
+    use vharness::fixtures;
+
+    const SERVED: ExchangeId = ExchangeId::Kraken;
+
+    #[derive(Debug, Clone, PartialEq, Eq, Hash, Serialize, Deserialize)]
+    pub struct AccountCase {
+        pub policy: Policy,
+        pub script: Vec<Attempt>,
+    }
+
+    #[derive(Clone)]
+    pub struct DropClient {
+        script: Arc<Mutex<VecDeque<Attempt>>>,
+        conn: Arc<Mutex<u32>>,
+    }
+
+    impl ExecutionClient for DropClient {
+        const EXCHANGE: ExchangeId = ExchangeId::Mock;
+        type Config = DropClient;
+        type AccountStream = BoxStream<'static, UnindexedAccountEvent>;
+
+        fn new(config: Self::Config) -> Self {
+            config
+        }
+
+        async fn account_snapshot(&self, _: &[AssetNameExchange], _: &[InstrumentNameExchange]) -> Result<UnindexedAccountSnapshot, UnindexedClientError> {
+            let conn = *self.conn.lock().unwrap();
+            // balance total = 1000 x connection number: identifies the connection the snapshot belongs to
+            Ok(UnindexedAccountSnapshot {
+                exchange: SERVED,
+                balances: vec![AssetBalance { asset: AssetNameExchange::from("USDT"), balance: Balance::new(Decimal::from(1000 * conn), Decimal::ZERO), time_exchange: fixtures::t(conn as i64 + 1) }],
+                instruments: vec![],
+            })
+        }
+
+        async fn account_stream(&self, _: &[AssetNameExchange], _: &[InstrumentNameExchange]) -> Result<Self::AccountStream, UnindexedClientError> {
+            let attempt = self.script.lock().unwrap().pop_front();
+            let mut conn = self.conn.lock().unwrap();
+            *conn += 1;
+            let c = *conn;
+            match attempt {
+                Some(Attempt { ok: false, .. }) => Err(UnindexedClientError::Connectivity(ConnectivityError::Socket("scripted connection failure".into()))),
+                Some(Attempt { ok: true, items }) => Ok(futures::stream::iter((1..=items as u32).map(move |i| UnindexedAccountEvent {
+                    exchange: SERVED,
+                    kind: AccountEventKind::BalanceSnapshot(Snapshot(AssetBalance { asset: AssetNameExchange::from("USDT"), balance: Balance::new(Decimal::from(1000 * c + i), Decimal::ZERO), time_exchange: fixtures::t(c as i64 * 100 + i as i64) })),
+                }))
+                .boxed()),
+                // script exhausted: a connection that delivers two updates and then stays up
+                None => Ok(futures::stream::iter((1..=2u32).map(move |i| UnindexedAccountEvent {
+                    exchange: SERVED,
+                    kind: AccountEventKind::BalanceSnapshot(Snapshot(AssetBalance { asset: AssetNameExchange::from("USDT"), balance: Balance::new(Decimal::from(1000 * c + i), Decimal::ZERO), time_exchange: fixtures::t(c as i64 * 100 + i as i64) })),
+                }))
+                .chain(futures::stream::pending())
+                .boxed()),
+            }
+        }
+
+        async fn cancel_order(&self, _: OrderRequestCancel<ExchangeId, &InstrumentNameExchange>) -> UnindexedOrderResponseCancel {
+            std::future::pending().await
+        }
+        async fn open_order(&self, _: OrderRequestOpen<ExchangeId, &InstrumentNameExchange>) -> Order<ExchangeId, InstrumentNameExchange, Result<Open, UnindexedOrderError>> {
+            std::future::pending().await
+        }
+        async fn fetch_balances(&self) -> Result<Vec<AssetBalance<AssetNameExchange>>, UnindexedClientError> {
+            Ok(vec![])
+        }
+        async fn fetch_open_orders(&self) -> Result<Vec<Order<ExchangeId, InstrumentNameExchange, Open>>, UnindexedClientError> {
+            Ok(vec![])
+        }
+        async fn fetch_trades(&self, _: DateTime<Utc>) -> Result<Vec<Trade<QuoteAsset, InstrumentNameExchange>>, UnindexedClientError> {
+            Ok(vec![])
+        }
+    }
+
+    /// what the merged account stream yielded: ("S"|"U", connection, index) items and "R:<exchange>" notices
+    pub fn run(case: &AccountCase) -> Result<Vec<String>, String> {
+        let rt = tokio::runtime::Builder::new_current_thread().enable_time().start_paused(true).build().map_err(|e| e.to_string())?;
+        let out = rt.block_on(async {
+            let ins = IndexedInstruments::new([fixtures::spot(ExchangeId::BinanceSpot, "btc", "usdt"), fixtures::spot(SERVED, "btc", "usdt")]);
+            let map = generate_execution_instrument_map(&ins, SERVED).map_err(|e| format!("map: {e}"))?;
+            let client = DropClient { script: Arc::new(Mutex::new(case.script.iter().copied().collect())), conn: Arc::new(Mutex::new(0)) };
+            let (_req_tx, req_rx) = mpsc_unbounded::<ExecutionRequest>();
+            let policy = ReconnectionBackoffPolicy { backoff_ms_initial: case.policy.initial, backoff_multiplier: case.policy.mult, backoff_ms_max: case.policy.max };
+            let (_manager, stream) = ExecutionManager::init(req_rx.into_stream(), Duration::from_secs(1), Arc::new(client), AccountEventIndexer::new(Arc::new(map)), policy)
+                .await
+                .map_err(|e| format!("ExecutionManager::init failed although the first connection succeeds: {e:?}"))?;
+            let mut stream = Box::pin(stream);
+            let final_conn = case.script.len() as u32 + 1;
+            let mut seen: Vec<String> = vec![];
+            let deadline = Duration::from_millis(case.policy.max.saturating_mul(case.script.len() as u64 + 2).saturating_add(3_600_000));
+            let consume = async {
+                while let Some(ev) = stream.next().await {
+                    match ev {
+                        AccountStreamEvent::Reconnecting(origin) => seen.push(format!("R:{origin:?}")),
+                        Event::Item(account) => match account.kind {
+                            AccountEventKind::Snapshot(s) => {
+                                let total = s.balances.first().map(|b| b.balance.total).unwrap_or_default();
+                                seen.push(format!("S:{}", total / Decimal::from(1000)));
+                            }
+                            AccountEventKind::BalanceSnapshot(b) => {
+                                let total: u32 = b.0.balance.total.try_into().unwrap_or(0);
+                                seen.push(format!("U:{}:{}", total / 1000, total % 1000));
+                                if total / 1000 == final_conn && total % 1000 == 2 {
+                                    break;
+                                }
+                            }
+                            other => seen.push(format!("?:{other:?}")),
+                        },
+                    }
+                    if seen.len() > 2_000 {
+                        break;
+                    }
+                }
+            };
+            if tokio::time::timeout(deadline, consume).await.is_err() {
+                seen.push("WATCHDOG".into());
+            }
+            Ok(seen)
+        });
+        rt.shutdown_background();
+        out
+    }
+
+    pub fn judge(case: &AccountCase, seen: &[String]) -> Result<(u64, Vec<&'static str>), (&'static str, String)> {
+        // expected: per successful attempt k (connection number k+1): S:<k+1>, U:<k+1>:1..items, then R:<served>
+        let mut want: Vec<String> = vec![];
+        for (k, a) in case.script.iter().enumerate() {
+            if a.ok {
+                want.push(format!("S:{}", k + 1));
+                for i in 1..=a.items {
+                    want.push(format!("U:{}:{i}", k + 1));
+                }
+                want.push(format!("R:{SERVED:?}"));
+            }
+        }
+        let last = case.script.len() + 1;
+        want.push(format!("S:{last}"));
+        want.push(format!("U:{last}:1"));
+        want.push(format!("U:{last}:2"));
+        if seen == want.as_slice() {
+            return Ok((want.len() as u64, vec!["account_stage:execution_manager_account_stream"]));
+        }
+        // classify
+        let strip = |v: &[String]| -> Vec<String> { v.iter().map(|s| if s.starts_with("R:") { "R".to_string() } else { s.clone() }).collect() };
+        if strip(seen) == strip(&want) {
+            let bad = seen.iter().find(|s| s.starts_with("R:") && **s != format!("R:{SERVED:?}")).cloned().unwrap_or_default();
+            return Err(("reconnecting_notice_names_another_exchange", format!("the account link of {SERVED:?} dropped; the notice says {bad} (events {seen:?})")));
+        }
+        Err(("account_stream_items_or_notices_differ", format!("expected {want:?} observed {seen:?}")))
+    }
+
+    pub fn generate(rng: &mut vharness::Rng) -> AccountCase {
+        let initial = *rng.pick(&[1u64, 7, 300]);
+        let mult = *rng.pick(&[1u8, 2, 3]);
+        let max = initial * *rng.pick(&[1u64, 4, 30]);
+        let mut script = vec![Attempt { ok: true, items: rng.below(4) as u8 }];
+        for _ in 0..rng.range_u(1, 8) {
+            script.push(if rng.chance(2, 5) { Attempt { ok: false, items: 0 } } else { Attempt { ok: true, items: rng.below(4) as u8 } });
+        }
+        AccountCase { policy: Policy { initial, mult, max }, script }
+    }
+}
+
+fn execute_account(case: &account_stage::AccountCase, report: &mut Report) {
+    let h = fnv1a(format!("account{case:?}").as_bytes());
+    match account_stage::run(case) {
+        Err(e) => report.harness_errors.push(format!("account stage: {e}")),
+        Ok(seen) => {
+            report.events_observed += seen.len() as u64;
+            match account_stage::judge(case, &seen) {
+                Ok((checks, cells)) => {
+                    report.oracle_checks += checks;
+                    for c in cells {
+                        report.cover(c);
+                    }
+                    report.case(h, case.script.iter().filter(|a| a.ok).count() >= 2);
+                }
+                Err((sig, detail)) => {
+                    report.case(h, true);
+                    report.violation(sig, detail, json!({"kind": "account", "case": case}));
+                }
+            }
+        }
+    }
+}
+
 fn main() {
     let args = Args::parse();
 
@@ -1744,6 +1960,10 @@ fn main() {
             Some("merge") => {
                 let case: MergeCase = serde_json::from_value(h["case"].clone()).expect("merge case");
                 execute_merge(&case, &mut report);
+            }
+            Some("account") => {
+                let case: account_stage::AccountCase = serde_json::from_value(h["case"].clone()).expect("account case");
+                execute_account(&case, &mut report);
             }
             Some("consumer") => {
                 let case: consumer_stage::ConsumerCase = serde_json::from_value(h["case"].clone()).expect("consumer case");
@@ -1789,6 +2009,10 @@ fn main() {
             let case = consumer_stage::generate(rng);
             execute_consumer(&case, report);
         }
+        for _ in 0..Args::share(n_consumer, w, n) {
+            let case = account_stage::generate(rng);
+            execute_account(&case, report);
+        }
     });
 
     if !small {
@@ -1830,6 +2054,7 @@ fn main() {
             "merge:input_receiver_stream",
             "consumer:init_market_stream",
             "consumer:custom_policy_growth_observed",
+            "account_stage:execution_manager_account_stream",
         ] {
             report.require(c);
         }
